@@ -321,6 +321,21 @@ def run_scenarios(seed, start, count, clauses):
                     tol5 = 1e-6 if sc["L_kind"] not in ("staged", "fastosc") else max(5e-3, 10 * (acc or 0.0))
                     if not np.isfinite(d) or d > tol5:
                         msgs.append(f"rate scaling k={k:g}: textures/F differ by {d:.3e} (> {tol5:.1e}; accuracy of the default-tolerance run {acc})")
+            if "C05" in clauses and sc["L_kind"] not in ("staged", "fastosc") and idx % 3 == 0:
+                # a fine partition (20 segments of 1e-6 time units) driven at rate 1 and at rate 1e3 (segments of 1e-9 time units):
+                # no segment may be treated as empty because its duration is small in absolute terms
+                t0_ = float(b["times"][0])
+                fine = t0_ + 1e-6 * np.arange(21)
+                gL, gp = b["get_L"], b["get_pos"]
+                ma, mb = b["mineral"](), b["mineral"]()
+                Fa = drive(ma, params, b["F0"], gL, gp, fine)
+                kf = 1e3
+                Fb = drive(mb, params, b["F0"], (lambda t, x: kf * gL(t0_ + (t - t0_ / kf) * kf, x)), (lambda t: gp(t0_ + (t - t0_ / kf) * kf)), t0_ / kf + 1e-9 * np.arange(21))
+                d = max(np.abs(np.asarray(mb.orientations[-1]) - np.asarray(ma.orientations[-1])).max(), np.abs(np.asarray(mb.fractions[-1]) - np.asarray(ma.fractions[-1])).max() * n,
+                        np.abs(Fb - Fa).max() / max(1e-12, np.abs(Fa).max()))
+                moved = np.abs(Fa - b["F0"]).max()
+                if len(mb.orientations) != len(ma.orientations) or not np.isfinite(d) or d > max(1e-7, 1e-2 * moved):
+                    msgs.append(f"fine partition (20 x 1e-6) at rate 1e3: textures/F differ by {d:.3e} from rate 1 (F moved by {moved:.1e})")
             if "C04" in clauses and sc["L_kind"] != "staged" and sc["texture"] != "axis":
                 # (staged histories contain a rigid-rotation stage: in a rotated frame its strain rate is rounding noise instead of
                 #  exactly zero and the normalisation by the maximum strain rate is ill-conditioned -- see DESIGN, C04 limitations;
